@@ -1104,7 +1104,7 @@ def strategy_image(tier):
         'as_dict': st.booleans(),
         'mode': st.sampled_from(['reexport', 'mixed', 'two_pools']),
         # 2-5 scenes per container (0 and 1 are fixed cases): cross-scene pool collisions need company
-        'entries': st.lists(entry, min_size=2, max_size=5, unique_by=lambda e: crc_of(e['filename'])),
+        'entries': st.lists(entry, min_size=2, max_size=4, unique_by=lambda e: crc_of(e['filename'])),
     })
 
 
@@ -1361,7 +1361,7 @@ SUBS = [
                              'binary:count_over_limit_rejected', 'file:sample.vcd', 'file:test_save_binary.bvcd')),
     Sub('choreo_cross', exec_cross, strategy=strategy_cross, quick=600, thorough=6000, floor=100, quick_shards=16,
         must_hit=COMMON_HIT),
-    Sub('choreo_image', exec_image_any, strategy=strategy_image, fixed=fixed_image, quick=160, thorough=2000, floor=40,
+    Sub('choreo_image', exec_image_any, strategy=strategy_image, fixed=fixed_image, quick=112, thorough=2000, floor=40,
         quick_shards=16,
         must_hit=('version:2', 'version:3', 'mode:reexport', 'mode:mixed', 'mode:two_pools', 'entries:2+', 'image:case_variant_strings_across_scenes', 'arg:dict', 'arg:iter', 'input_unsorted', 'ev:speak', 'lzma')),
 ]
